@@ -338,6 +338,24 @@ func (w *World) lowerFunc(pkg *Pkg, key string, fd *ast.FuncDecl, fc *FuncContra
 		e.autoInv(key, sig, exitActuals, e.entryOld, func(cl *Clause, t *Term, what string) {
 			e.assert(t, "inv."+what, fmt.Sprintf("%d", cl.Ord), cl.Tags, "type invariant at exit: "+cl.Text, fmt.Sprintf("%s:%d", e.short, cl.Line))
 		})
+		// ownership of byte storage (see callContract)
+		if fc != nil && !fc.Assumed {
+			names := map[string]Value{}
+			for i, n := range fc.Params {
+				if i < len(exitActuals) && n != "_" {
+					names[n] = exitActuals[i]
+				}
+			}
+			pctx := &specCtx{e: e, names: names, bound: map[string]*Term{}, oldMap: e.entryOld}
+			ms := e.modSpecOf(fc, key, sig, exitActuals, pctx)
+			k := 0
+			for _, r := range ms.roots {
+				for _, t := range e.ownTerms(r, exitActuals, e.entryOld, e.nextRef().Subst(e.entryOld)) {
+					k++
+					e.assert(t, "frame.own", fmt.Sprint(k), nil, "a byte-slice field of a modified object is left on its old array, a fresh one, nil or an argument's", w.pos(fd.Pos()))
+				}
+			}
+		}
 		// memory frame
 		if fc != nil && e.assigned["Mem"] && !fc.Assumed && contractTagged(fc, "C13") {
 			e.memFrame(fc, key, sig, exitActuals)
